@@ -24,6 +24,18 @@ a tape-chosen prefix limit (64, 10, 5 or 3 base-128 digits).
   sender's own limit is then the larger of the two (rarely 64 or the smaller one), integers are sized around both
   limits, the hand-built element is sized against the old or the new limit.
 
+* empty deliveries (a quarter of the runs): dataReceived(b"") is mixed into the payload stream, before a piece or after the
+  last one - at the end of an expression, at the end of an element inside an open list (reference tokenizer
+  models.banana.token_ends) and, with the knob EMPTY_INSIDE_ELEMENT_P, inside an element.  An empty piece is a piece of a
+  segmentation: it must not raise and what is received stays the same.
+* free functions (FUNCTIONS_P of the runs, after the connection part): a series of 2..5 calls of banana.encode() /
+  banana.decode() - the coder the module keeps for whole expressions (prefix limit 64, no vocabulary): round trips, values
+  outside the limits (refused by encode), hand-built streams (over-long prefix, list/string length above SIZE_LIMIT:
+  BananaError; a 64-digit prefix: accepted), truncated streams (no verdict on the call itself).  Every call stands for
+  itself (test_banana: "calls to banana.decode are independent of each other"): a round trip yields an equal structure
+  whatever decode() was handed before.  With the knob FAILED_DECODE_IN_LIST_P the refused / truncated stream stops inside
+  an open list.
+
 Oracle: a reference decoder at item level (models.banana.judge) walks the items in order with the limit in force:
 the old one up to and including the item in whose callback the limit was changed, the new one after it; an item
 whose longest prefix exceeds the limit in force, or that announces a length above SIZE_LIMIT, is refused.  Received
@@ -49,13 +61,15 @@ ENGINE = "net"
 LEVEL = "exploration"
 TECHNIQUE = ("deterministic simulation: seeded expression grammar with boundary values sent between two real Banana "
              "instances (dialect negotiated over the link) under seeded segmentation, plus hand-built over-limit elements and "
-             "prefix limits changed by the receiving application from inside expressionReceived / between deliveries")
+             "prefix limits changed by the receiving application from inside expressionReceived / between deliveries, empty "
+             "deliveries, and series of calls of the module's own encode()/decode() with refused and truncated streams in between")
 QUICK_RUNS = 50000
 TWIN_P = 0.08   # this share of the runs drives two independent instances of the scenario one after the other (detsim.runner._run_scenario)
 BATCH = 100
 COMPONENTS = {
     "real": ["twisted.spread.banana.Banana (connectionMade negotiation, sendEncoded/_encode, dataReceived, setPrefixLimit)",
-             "twisted.spread.banana.setPrefixLimit (module level)", "twisted.spread.banana.int2b128/b1282int"],
+             "twisted.spread.banana.setPrefixLimit (module level)", "twisted.spread.banana.int2b128/b1282int",
+             "twisted.spread.banana.encode / decode (free functions over the module-level coder)"],
     "stub": ["TCP transport and delivery segmentation (detsim.net.Link / cut)",
              "expressionReceived recorder that may call setPrefixLimit at a tape-chosen message"],
 }
@@ -63,6 +77,8 @@ RULE = ("run = dialect negotiation over the link, then 1..4 expressions (some ou
         "real expressions followed by a hand-built over-limit / at-limit element, delivered in tape-chosen pieces; in a third of "
         "the runs the receiving application changes the prefix limit (instance or module-level setPrefixLimit; raised or lowered) "
         "from inside expressionReceived at a tape-chosen message or between two deliveries, with items sized around both limits; "
+        "in a quarter of the runs 1..3 empty deliveries are placed at element / expression ends of the stream; 15% of the runs end "
+        "with 2..5 calls of banana.encode()/decode() (round trips, out-of-limit values, refused / at-limit / truncated streams); "
         "non-trivial = the payload stream was cut at least once")
 ASSUMPTIONS = [
     "prefix limits below 3 digits are not used (string/list lengths up to SIZE_LIMIT need 3 digits)",
@@ -75,7 +91,28 @@ ASSUMPTIONS = [
     "this call'); it is reset to 64 at the end of every run",
     "the class attribute Banana.sizeLimit is never consulted by the unchanged decoder/encoder (SIZE_LIMIT is) and is undocumented: "
     "it is not varied and no verdict depends on it",
+    "an empty delivery is a legal piece of a segmentation (IProtocol.dataReceived sets no minimum length; the stock reactors never "
+    "deliver one, wrappers and in-memory transports may); inside an element it is made with EMPTY_INSIDE_ELEMENT_P (0.5 of such gaps; the "
+    "decoder of the tree as first examined failed its 'This ain't right' assertion there - genuine defect, REPAIRED in /repo a57c4fd)",
+    "banana.encode()/decode() work with the limit the module had when it was imported (64); a truncated stream is not an encoding: "
+    "no verdict on what decode() does with it; refused / truncated streams that stop inside an open list are handed to decode() only "
+    "with FAILED_DECODE_IN_LIST_P (0.5 of such streams; decode() of the tree as first examined kept the open list for the next call - genuine "
+    "defect, REPAIRED in /repo 4eff4c5); the coder's "
+    "listStack/buffer are cleared at the end of every run (run isolation, it lives as long as the worker process)",
 ]
+
+# empty deliveries (dataReceived(b"")) mixed into the payload stream: share of the runs, and - for a gap that lies INSIDE an
+# element (prefix digits without their type byte, a string or float with bytes missing) - the share in which the empty
+# delivery is made there.  The second knob is 0.5: the decoder of the tree as first examined failed an assertion there (genuine defect,
+# REPAIRED in /repo a57c4fd, see MUTANTS); 0 keeps the precondition out and is only for dev-time comparison
+EMPTY_DELIVERIES_P = 0.25
+EMPTY_INSIDE_ELEMENT_P = 0.5
+# free functions banana.encode()/banana.decode(): share of the runs that end with a series of calls, and the share of the
+# refused / truncated streams handed to decode() that stop inside an open list.  The second knob is 0.5: decode() of the tree as
+# first examined kept the open list for the next call (genuine defect, REPAIRED in /repo 4eff4c5, see MUTANTS); 0 keeps the
+# precondition out and is only for dev-time comparison
+FUNCTIONS_P = 0.15
+FAILED_DECODE_IN_LIST_P = 0.5
 
 VOCAB_WORDS = [b"None", b"list", b"tuple", b"message", b"answer", b"dictionary", b"uncache", b"class"]
 
@@ -219,11 +256,124 @@ def late_connection(sim, limit):
     sim.probe("late_connection_checked")
 
 
+def free_functions(sim):
+    """banana.encode() / banana.decode(): the module's own coder for one expression at a time (prefix limit 64, no
+    vocabulary).  A series of calls on the one coder the module keeps: round trips, values outside the limits, hand-built
+    streams that must be refused or (at the limit) accepted, truncated streams.  Every call stands for itself: a round
+    trip yields an equal structure whatever was handed to decode() before."""
+    budget = [1]
+    failed_before = False
+    for _ in range(sim.draw_int(2, 5, "fn-ops")):
+        sim.step(6000)
+        op = sim.draw_weighted([("roundtrip", 6), ("refused", 3), ("truncated", 2), ("outside", 1), ("at-limit", 1)], "fn-op")
+        tag = "function-after-failed-decode" if failed_before else "function"
+        if op in ("roundtrip", "at-limit"):
+            if op == "roundtrip":
+                e = gen_expr(sim, 64, 0, budget, 64)
+                with sim.guard("valid-value-refused", "function"):
+                    raw = banana.encode(e)
+                want = bm.normalise(e)
+                clause = "valid-stream-refused"
+            else:
+                digit = bytes([sim.draw_choice([1, 0x7F, 0, 0x40], "digit")])
+                digits = digit * 63 + b"\x01"
+                neg = sim.draw_bool(0.5, "neg")
+                raw = digits + (bm.LONGNEG if neg else bm.LONGINT)
+                want = sum(d << (7 * i) for i, d in enumerate(digits)) * (-1 if neg else 1)
+                clause = "at-limit-refused"
+            sim.event("fn-" + op, show(want))
+            sim.probe("fn_" + op.replace("-", "_") + ("_after_failed_decode" if failed_before else ""))
+            back = None
+            try:
+                back = banana.decode(raw)
+            except Violation:
+                raise
+            except Exception as ex:
+                sim.fail(clause, tag, "banana.decode raised %r for the encoding of %s" % (ex, show(want)))
+            sim.check("expressions-equal", bm.same(back, want), tag,
+                      lambda: "banana.decode returned %s for the encoding of %s" % (show(back), show(want)))
+        elif op == "outside":
+            kind, v = gen_outside(sim, 64)
+            sim.event("fn-outside", kind)
+            sim.probe("fn_outside")
+            raised = None
+            try:
+                banana.encode(v)
+            except banana.BananaError as ex:
+                raised = ex
+            except Violation:
+                raise
+            except Exception as ex:
+                sim.fail("unexpected-exception", "encode-function:" + type(ex).__name__, "%r for %s" % (ex, show(v)))
+            sim.check("outside-limit-encoded", raised is not None, kind + "+function", lambda: "banana.encode accepted %s" % show(v))
+        else:
+            in_list = FAILED_DECODE_IN_LIST_P > 0 and sim.draw_bool(FAILED_DECODE_IN_LIST_P, "fn-in-list")
+            if op == "refused":
+                kind = sim.draw_weighted([("prefix-over", 4), ("prefix-over-no-type", 2), ("list-over", 2), ("string-over", 2)], "fn-crafted")
+                raw = b""
+                if in_list:
+                    raw = bm.b128(2) + bm.LIST + bm.b128(7) + bm.INT
+                elif sim.draw_bool(0.3, "fn-lead"):
+                    raw = banana.encode(gen_expr(sim, 64, 0, budget, 64))       # a complete expression first
+                digit = bytes([sim.draw_choice([1, 0x7F, 0, 0x40], "digit")])
+                if kind == "prefix-over":
+                    raw += digit * (64 + sim.draw_choice([1, 2, 10], "extra")) + sim.draw_choice(
+                        [bm.INT, bm.LONGINT, bm.NEG, bm.LONGNEG, bm.STRING, bm.LIST], "type")
+                elif kind == "prefix-over-no-type":
+                    raw += digit * (64 + sim.draw_choice([1, 5, 40], "extra"))
+                elif kind == "list-over":
+                    raw += bm.b128(bm.SIZE_LIMIT + sim.draw_choice([1, 2, 1000], "over")) + bm.LIST
+                else:
+                    raw += bm.b128(bm.SIZE_LIMIT + sim.draw_choice([1, 2, 1000], "over")) + bm.STRING + b"abc"
+                sim.event("fn-refused", kind, in_list)
+                sim.probe("fn_refused_" + kind)
+                outcome = None
+                try:
+                    outcome = "returned %s" % show(banana.decode(raw))
+                except banana.BananaError:
+                    pass
+                except Violation:
+                    raise
+                except Exception as ex:
+                    outcome = "raised %r" % (ex,)
+                sim.check("over-limit-decoded", outcome is None, kind + "+function", lambda: "banana.decode %s, no BananaError" % outcome)
+            else:
+                # a stream that stops in the middle of an element: not an encoding, so no verdict on what decode() does
+                # with it - only the calls that follow are judged
+                if in_list:
+                    e = [sim.draw_int(0, 9, "sibling"), gen_expr(sim, 64, 1, budget, 64)]
+                else:
+                    k = sim.draw_choice(["bytes", "int", "float"], "fn-trunc-kind")
+                    e = gen_bytes(sim, budget) if k == "bytes" else gen_int(sim, 64, 64) if k == "int" else gen_float(sim)
+                raw = banana.encode(e)
+                lo = 2 if in_list else 1
+                if len(raw) <= lo:
+                    continue
+                raw = raw[:sim.draw_int(lo, len(raw) - 1, "fn-cut")]
+                sim.event("fn-truncated", show(e), len(raw))
+                sim.probe("fn_truncated")
+                try:
+                    banana.decode(raw)
+                except Violation:
+                    raise
+                except Exception:
+                    pass
+            if in_list:
+                sim.fault("failed_decode_inside_open_list")
+            failed_before = True
+
+
 def run(sim):
     try:
         _run(sim)
     finally:
         banana.setPrefixLimit(64)
+        # run isolation: the coder behind banana.encode()/decode() lives as long as the worker process
+        coder = getattr(banana, "_i", None)
+        if coder is not None:
+            if getattr(coder, "listStack", None):
+                del coder.listStack[:]
+            coder.buffer = b""
 
 
 def _run(sim):
@@ -396,21 +546,54 @@ def _run(sim):
     ctx = lambda: "dialect %s prefix limit %d (sender %d) %sitems %r pieces %r" % (
         offer[0].decode(), limit, send_limit,
         "" if change is None else "limit change %r " % (sorted(change.items()),), log, [len(p) for p in pieces][:16])
+    # empty deliveries: dataReceived(b"") before a piece or after the last one - at the end of an expression, at the end of an
+    # element inside a list, or inside an element (EMPTY_INSIDE_ELEMENT_P); the stream is the same, so is what must be received
+    empty_gaps = {}
+    if pieces and sim.draw_bool(EMPTY_DELIVERIES_P, "empty-deliveries"):
+        tok = set(bm.token_ends(wire))
+        offs = [0]
+        for p in pieces:
+            offs.append(offs[-1] + len(p))
+        for _ in range(sim.draw_int(1, 3, "nempty")):
+            g = sim.draw_int(0, len(pieces), "empty-gap")
+            # (a hand-built last item may be incomplete: the end of the stream is then inside an element)
+            where = "inside-element" if offs[g] and offs[g] not in tok else "expression-end" if offs[g] == 0 or offs[g] in ends else "element-end"
+            if where == "inside-element" and not (EMPTY_INSIDE_ELEMENT_P > 0 and sim.draw_bool(EMPTY_INSIDE_ELEMENT_P, "empty-inside")):
+                continue
+            empty_gaps[g] = where
     raised = None
-    for pi, p in enumerate(pieces):
+
+    def deliver(n):
+        """One delivery of n bytes (0: an empty one); False once the receiver raised BananaError."""
+        nonlocal raised
         sim.step(6000)
-        delivered_upto[0] += len(p)
         try:
-            link.do("deliver", recv_name, len(p))
+            if n:
+                link.do("deliver", recv_name, n)
+            else:
+                receiver.dataReceived(b"")
         except Violation:
             raise
         except banana.BananaError as e:
             raised = e
-            break
+            return False
         except Exception as e:
-            sim.fail("unexpected-exception", "decode:" + type(e).__name__, lambda: "%r; %s" % (e, ctx()))
+            sim.fail("unexpected-exception", ("decode:" if n else "decode-empty-delivery:") + type(e).__name__, lambda: "%r; %s" % (e, ctx()))
         sim.check("received-prefix", len(got) <= most and all(bm.same(a, b) for a, b in zip(got, all_values)), mode,
                   lambda: "receiver has %s, sent %s; %s" % ([show(x) for x in got], [show(x) for x in all_values], ctx()))
+        return True
+
+    def deliver_empty(g):
+        sim.event("empty-delivery", empty_gaps[g])
+        sim.fault("empty_delivery_" + empty_gaps[g].replace("-", "_"))
+        return deliver(0)
+
+    for pi, p in enumerate(pieces):
+        if pi in empty_gaps and not deliver_empty(pi):
+            break
+        delivered_upto[0] += len(p)
+        if not deliver(len(p)):
+            break
         if pi == change_after:
             # the application changes the limit between two deliveries; the item in progress may be partly buffered
             change["fired"] = True
@@ -423,6 +606,8 @@ def _run(sim):
                 receiver.setPrefixLimit(change["new"])
             else:
                 banana.setPrefixLimit(change["new"])
+    if raised is None and len(pieces) in empty_gaps:
+        deliver_empty(len(pieces))
     receiver.hook = None
 
     # the reference decoder's verdict
@@ -469,6 +654,8 @@ def _run(sim):
     sim.check("sender-quiet", not other, mode, lambda: "the sending side received %r" % (other,))
     if change is not None and change["fired"] and change["how"] == "module":
         late_connection(sim, change["new"])
+    if sim.draw_bool(FUNCTIONS_P, "free-functions"):
+        free_functions(sim)
     sim.state((offer[0], limit, mode, getattr(refused, "kind", "open") if refused else len(expected), min(len(pieces), 6),
                None if change is None else (change["how"], change["where"], change["new"] > limit, change["fired"])))
     sim.nontrivial = len(pieces) > 1
@@ -497,4 +684,16 @@ MUTANTS = [
     "dataReceived: 'len(num) > min(self.prefixLimit, _PREFIX_LIMIT)' (module-level call reaches live connections) : caught (valid-stream-refused:roundtrip+limit-module-callback/-between)",
     "dataReceived: 'len(num) > max(self.prefixLimit, _PREFIX_LIMIT)' : caught (over-limit-decoded:prefix-over)",
     "connectionMade: setPrefixLimit(64) instead of the module-level limit : caught (outside-limit-encoded:late-connection, valid-value-refused:late-connection)",
+    "decode(): the finally no longer clears _i.buffer : caught (valid-stream-refused / at-limit-refused:function-after-failed-decode)",
+    "dataReceived: an empty chunk drops the open lists (del self.listStack[:]) : caught (received-prefix:roundtrip / decode-refusal, empty delivery at an element end)",
+    "module coder created with setPrefixLimit(65) : caught (outside-limit-encoded:int-over+function, int-under+function, over-limit-decoded:prefix-over+function)",
+    "GENUINE DEFECT of the tree as first examined, REPAIRED in /repo 4eff4c5 (precondition behind FAILED_DECODE_IN_LIST_P, now 0.5; 0 only for dev-time comparison): "
+    "banana.decode() reset _i.buffer but not _i.listStack after a failed call, so a stream "
+    "refused or cut inside a list left the open list behind and the next decode(encode(x)) returned the stale list ([7, x]) or raised IndexError : "
+    "C44:expressions-equal:function-after-failed-decode, C44:valid-stream-refused:function-after-failed-decode, C44:at-limit-refused:function-after-failed-decode "
+    "(replays/C44_40476159_42.json, replays/C44_86766663_316.json, knob 0.5); repair: 'del _i.listStack[:]' in decode()'s finally : check passes with the knob at 0.5",
+    "GENUINE DEFECT of the tree as first examined, REPAIRED in /repo a57c4fd (precondition behind EMPTY_INSIDE_ELEMENT_P, now 0.5; 0 only for dev-time comparison): "
+    "Banana.dataReceived(b'') while an element is incomplete failed 'assert self.buffer != buffer' : "
+    "C44:unexpected-exception:decode-empty-delivery:AssertionError (replays/C44_12099591_35.json, knob 0.5); repair: 'if not chunk: return' at the top of "
+    "dataReceived : check passes with the knob at 0.5",
 ]
